@@ -115,7 +115,7 @@ def plan(seed, tier):
         for p in range(parts):
             cases.append({"class": "draws", "L": L, "part": p, "parts": parts, "draws": draws,
                           "cost": 4 ** L / parts / 100})
-    for i in range(16 if tier == "quick" else 160):
+    for i in range(16 if tier == "quick" else 800):
         cases.append({"class": "long", "index": i, "reps": 150, "cost": 5})
     cases.append({"class": "probe_min0", "cost": 1})
     return cases
